@@ -442,6 +442,390 @@ fn ipc_stream(ctx: &Ctx) -> R {
     run_format(ctx, &f, &IpcDec, true)
 }
 
+// ---------------------------------------------------------------------------------------------
+// ParquetMetaDataPushDecoder: the "chunking" is the delivery schedule of byte ranges
+// ---------------------------------------------------------------------------------------------
+
+use bytes::Bytes;
+use parquet::file::metadata::{PageIndexPolicy, ParquetMetaData, ParquetMetaDataPushDecoder, ParquetMetaDataReader};
+use parquet::DecodeResult;
+use std::ops::Range;
+
+/// Drive the metadata push decoder: `pre` is pushed up front (in this order), afterwards every request is
+/// answered exactly. Returns the metadata or the error, and the number of request rounds.
+fn meta_push(ctx: &Ctx, file: &Bytes, policy: PageIndexPolicy, pre: &[Range<u64>]) -> R<(Result<ParquetMetaData, String>, usize)> {
+    set_component("parquet.metadata_push_decoder");
+    let len = file.len() as u64;
+    let mut d = match ParquetMetaDataPushDecoder::try_new(len) {
+        Ok(d) => d.with_page_index_policy(policy),
+        Err(e) => return Ok((Err(e.to_string()), 0)),
+    };
+    for r in pre {
+        if let Err(e) = d.push_range(r.clone(), file.slice(r.start as usize..r.end as usize)) {
+            return Ok((Err(e.to_string()), 0));
+        }
+    }
+    let mut rounds = 0usize;
+    let mut last: Option<Vec<Range<u64>>> = None;
+    loop {
+        ctx.step();
+        match d.try_decode() {
+            Ok(DecodeResult::Data(m)) => return Ok((Ok(m), rounds)),
+            Ok(DecodeResult::Finished) => return Ok((Err("Finished without metadata".into()), rounds)),
+            Err(e) => return Ok((Err(e.to_string()), rounds)),
+            Ok(DecodeResult::NeedsData(ranges)) => {
+                rounds += 1;
+                for r in &ranges {
+                    if r.start > r.end || r.end > len {
+                        bail_v!(ctx, "range_outside_file", "parquet.metadata_push_decoder/request", "requested {}..{} of a {len}-byte file", r.start, r.end);
+                    }
+                }
+                if ranges.is_empty() || last.as_ref() == Some(&ranges) || rounds > 8 {
+                    bail_v!(ctx, "no_progress", "parquet.metadata_push_decoder/same_request", "round {rounds}: asked for {:?} again although exactly these ranges were supplied (pre-pushed: {} ranges)", &ranges[..ranges.len().min(4)], pre.len());
+                }
+                let data = ranges.iter().map(|r| file.slice(r.start as usize..r.end as usize)).collect();
+                if let Err(e) = d.push_ranges(ranges.clone(), data) {
+                    return Ok((Err(e.to_string()), rounds));
+                }
+                last = Some(ranges);
+            }
+        }
+    }
+}
+
+fn meta_compare(ctx: &Ctx, what: &str, input: &str, rf: &Result<ParquetMetaData, String>, got: &Result<ParquetMetaData, String>, detail: &str) -> R {
+    let key = format!("parquet.metadata_push_decoder/{what}.{input}");
+    match (rf, got) {
+        (Ok(a), Ok(b)) => {
+            // compared through Debug: statistics may hold NaN, for which `==` is false even on identical metadata
+            if format!("{a:?}") != format!("{b:?}") {
+                bail_v!(ctx, "rows_depend_on_chunking", &key, "metadata decoded under schedule [{detail}] differs from the one-delivery result ({} vs {} row groups, {} vs {} rows)", b.num_row_groups(), a.num_row_groups(), b.file_metadata().num_rows(), a.file_metadata().num_rows());
+            }
+        }
+        (Err(_), Err(_)) => {}
+        (a, b) => bail_v!(ctx, "outcome_depends_on_chunking", &key, "whole file at once: {}; schedule [{detail}]: {}", a.as_ref().map(|_| "Ok".to_string()).unwrap_or_else(|e| e.clone()), b.as_ref().map(|_| "Ok".to_string()).unwrap_or_else(|e| e.clone())),
+    }
+    Ok(())
+}
+
+fn meta_schedules(ctx: &Ctx, input: &'static str, file: &Bytes, policy: PageIndexPolicy, pull: &Result<ParquetMetaData, String>) -> R {
+    let len = file.len() as u64;
+    // reference: the whole file delivered in one range
+    let (rf, _) = meta_push(ctx, file, policy, &[0..len])?;
+    ctx.count("executions", 1);
+    if rf.is_err() {
+        ctx.probe("reference_is_error");
+    }
+    meta_compare(ctx, "pull_reader", input, pull, &rf, "whole file")?;
+    // nothing up front: exact answers only; at most footer + metadata + page index rounds
+    let (got, rounds) = meta_push(ctx, file, policy, &[])?;
+    ctx.count("executions", 1);
+    ctx.count("fault.delivery.exact", 1);
+    meta_compare(ctx, "exact", input, &rf, &got, "exact answers")?;
+    if got.is_ok() && rounds > 3 {
+        bail_v!(ctx, "no_progress", "parquet.metadata_push_decoder/rounds", "{rounds} request rounds with exact answers (footer, metadata, page index = 3 at most)");
+    }
+    // the file pre-pushed as two consecutive buffers, for every split point
+    let stride = (len as usize / 2500).max(1);
+    let points: Vec<u64> = (1..len).step_by(stride).collect();
+    let l: &str = if input == "valid" { "ms" } else { "tms" };
+    for j in ctx.sweep(l, points.len()) {
+        ctx.set_at(l, j as u64);
+        let k = points[j];
+        let (got, _) = meta_push(ctx, file, policy, &[0..k, k..len])?;
+        ctx.count("executions", 1);
+        ctx.count("fault.delivery.two_consecutive_buffers", 1);
+        meta_compare(ctx, "split", input, &rf, &got, &format!("0..{k}, {k}..{len} pushed up front"))?;
+    }
+    ctx.clear_at(l);
+    // a tail prefetch of every length
+    let l: &str = if input == "valid" { "mt" } else { "tmt" };
+    for j in ctx.sweep(l, points.len()) {
+        ctx.set_at(l, j as u64);
+        let k = points[j];
+        let (got, _) = meta_push(ctx, file, policy, &[k..len])?;
+        ctx.count("executions", 1);
+        ctx.count("fault.delivery.tail_prefetch", 1);
+        meta_compare(ctx, "tail", input, &rf, &got, &format!("{k}..{len} pushed up front"))?;
+    }
+    ctx.clear_at(l);
+    // uniform consecutive buffers, and tape-chosen multi-buffer deliveries (overlapping, duplicated, shuffled)
+    let l: &str = if input == "valid" { "mm" } else { "tmm" };
+    if ctx.part(l) {
+        for size in [1u64, 2, 3, 7, 8, 16, 64, 100, 1000] {
+            if len / size > 20_000 {
+                continue;
+            }
+            let pre: Vec<Range<u64>> = (0..len).step_by(size as usize).map(|s| s..(s + size).min(len)).collect();
+            let (got, _) = meta_push(ctx, file, policy, &pre)?;
+            ctx.count("executions", 1);
+            ctx.count("fault.delivery.uniform_buffers", 1);
+            meta_compare(ctx, "uniform", input, &rf, &got, &format!("consecutive {size}-byte buffers pushed up front"))?;
+        }
+        for _ in 0..1 + ctx.below(6, "meta.multi.rounds") {
+            let k = 1 + ctx.size(12, "meta.multi.n");
+            let mut pre: Vec<Range<u64>> = (0..k)
+                .map(|_| {
+                    let s = ctx.below(len as usize, "meta.multi.lo") as u64;
+                    // biased to the tail, where the metadata lives
+                    let s = if ctx.chance(1, 2, "meta.multi.tail") { len - (len - s) / 8 - 1 } else { s };
+                    s..(s + 1 + ctx.below((len - s) as usize, "meta.multi.len") as u64).min(len)
+                })
+                .collect();
+            if ctx.chance(1, 3, "meta.multi.dup") {
+                let d = pre[0].clone();
+                pre.push(d);
+            }
+            ctx.shape("meta.multi", pre.len() as u64, pre.iter().fold(0u64, |h, r| h.wrapping_mul(31).wrapping_add(r.start * 7 + r.end)));
+            let (got, _) = meta_push(ctx, file, policy, &pre)?;
+            ctx.count("executions", 1);
+            ctx.count("fault.delivery.random_buffers", 1);
+            meta_compare(ctx, "multi", input, &rf, &got, &format!("{pre:?} pushed up front"))?;
+        }
+    }
+    Ok(())
+}
+
+fn pq_meta(ctx: &Ctx) -> R {
+    let Some(f) = checks::c15::gen_file(ctx, 40)? else { return Ok(()) };
+    let policy = *ctx.pick(&[PageIndexPolicy::Optional, PageIndexPolicy::Skip, PageIndexPolicy::Required], "meta.policy");
+    let pull = |b: &Bytes| ParquetMetaDataReader::new().with_page_index_policy(policy).parse_and_finish(b).map_err(|e| e.to_string());
+    ctx.nontrivial();
+    ctx.shape("parquet.metadata_push_decoder", f.bytes.len() as u64, f.meta.num_row_groups() as u64);
+    set_component("parquet.metadata_reader(reference)");
+    let p = pull(&f.bytes);
+    meta_schedules(ctx, "valid", &f.bytes, policy, &p)?;
+    // invalid inputs: the file cut short, and one damaged byte in the footer region
+    if f.bytes.len() > 12 {
+        let cut = 1 + ctx.below(f.bytes.len() - 1, "meta.trunc");
+        let t = f.bytes.slice(0..cut);
+        set_component("parquet.metadata_reader(reference)");
+        let p = match catch_unwind(AssertUnwindSafe(|| pull(&t))) {
+            Ok(p) => p,
+            Err(_) => {
+                ctx.count("skipped.reference_panicked", 1);
+                return Ok(());
+            }
+        };
+        meta_schedules(ctx, "truncated", &t, policy, &p)?;
+        let mut v = f.bytes.to_vec();
+        let n = v.len();
+        let at = n - 1 - ctx.below(n.min(64), "meta.flip_at");
+        v[at] ^= 1 << ctx.below(8, "meta.flip_bit");
+        let c = Bytes::from(v);
+        set_component("parquet.metadata_reader(reference)");
+        let p = match catch_unwind(AssertUnwindSafe(|| pull(&c))) {
+            Ok(p) => p,
+            Err(_) => {
+                ctx.count("skipped.reference_panicked", 1);
+                return Ok(());
+            }
+        };
+        // a damaged file may make the push decoder panic or over-allocate: that is C08's matter, not chunk dependence
+        match catch_unwind(AssertUnwindSafe(|| meta_schedules(ctx, "corrupted", &c, policy, &p))) {
+            Ok(r) => r?,
+            Err(_) => ctx.count("corrupted_input_panicked(C08)", 1),
+        }
+    }
+    Ok(())
+}
+
+// ---------------------------------------------------------------------------------------------
+// FlightRecordBatchStream / FlightDataDecoder: the schedule is the Pending / Ready pattern of the message stream
+// ---------------------------------------------------------------------------------------------
+
+use arrow_flight::decode::FlightRecordBatchStream;
+use arrow_flight::encode::{DictionaryHandling as FlightDictHandling, FlightDataEncoderBuilder};
+use arrow_flight::error::FlightError;
+use arrow_flight::FlightData;
+use futures::{Stream, StreamExt};
+use simcore::aio::{Executor, Gate, OpFuture};
+use std::pin::Pin;
+use std::task::{Context, Poll};
+
+/// Delivers prepared messages; bit i of `pattern` = return `Pending` once before item i (bit n: before the end).
+struct PatternStream {
+    items: std::collections::VecDeque<FlightData>,
+    idx: u32,
+    pattern: u64,
+    pended: bool,
+    gate: Gate,
+    op: Option<OpFuture>,
+}
+
+impl Stream for PatternStream {
+    type Item = Result<FlightData, FlightError>;
+    fn poll_next(mut self: Pin<&mut Self>, cx: &mut Context<'_>) -> Poll<Option<Self::Item>> {
+        let this = &mut *self;
+        if let Some(op) = &mut this.op {
+            if op.poll_op(cx).is_pending() {
+                return Poll::Pending;
+            }
+            this.op = None;
+        } else if !this.pended && this.idx < 64 && (this.pattern >> this.idx) & 1 == 1 {
+            this.pended = true;
+            let mut op = this.gate.op();
+            if op.poll_op(cx).is_pending() {
+                this.op = Some(op);
+                return Poll::Pending;
+            }
+        }
+        this.pended = false;
+        this.idx += 1;
+        Poll::Ready(this.items.pop_front().map(Ok))
+    }
+}
+
+fn flight_decode(ctx: &Ctx, msgs: &[FlightData], pattern: u64) -> R<DOut> {
+    set_component("flight.decoder");
+    let gate = Gate::new();
+    let s = PatternStream { items: msgs.iter().cloned().collect(), idx: 0, pattern, pended: false, gate: gate.clone(), op: None };
+    let mut dec = FlightRecordBatchStream::new_from_flight_data(s);
+    let mut ex = Executor::new(ctx, &gate);
+    ex.allow_spurious = false;
+    let mut out = DOut::default();
+    loop {
+        match ex.block_on(dec.next(), "flight.decoder")? {
+            None => break,
+            Some(Ok(b)) => {
+                if !out.take(b) {
+                    break;
+                }
+            }
+            Some(Err(e)) => {
+                out.err = Some(e.to_string());
+                break;
+            }
+        }
+        if out.batch_rows.len() > 100_000 {
+            out.hang = true;
+            break;
+        }
+    }
+    if out.schema_sig.is_none() {
+        out.schema_sig = dec.schema().map(|s| gen::schema_sig(s, true));
+    }
+    Ok(out)
+}
+
+fn flight_decoder(ctx: &Ctx) -> R {
+    let mut p = ipc_profile(ctx);
+    p.zero_cols = false;
+    p.union = false; // hydrating a union that holds a dictionary is the known C04 finding; not a chunking matter
+    let wl = checks::c04::gen_wl(ctx, &p, 3, 8);
+    let cfg = IpcCfg::gen(ctx, false);
+    let resend = ctx.chance(1, 2, "fd.resend");
+    // the messages of a valid stream, from the real encoder (no Pending on this side)
+    let gate = Gate::new();
+    let input = futures::stream::iter(wl.batches.clone().into_iter().map(Ok::<_, FlightError>));
+    let mut enc = FlightDataEncoderBuilder::new()
+        .with_options(cfg.options())
+        .with_max_flight_data_size(*ctx.pick(&[2 * 1024 * 1024, 64, 600], "fd.max"))
+        .with_dictionary_handling(if resend { FlightDictHandling::Resend } else { FlightDictHandling::Hydrate })
+        .build(input);
+    let mut ex = Executor::new(ctx, &gate);
+    let mut msgs: Vec<FlightData> = vec![];
+    loop {
+        match ex.block_on(enc.next(), "flight.encoder(reference)")? {
+            None => break,
+            Some(Ok(m)) => msgs.push(m),
+            Some(Err(_)) => {
+                ctx.count("skipped", 1);
+                ctx.count("skipped.reference_write_failed", 1);
+                return Ok(());
+            }
+        }
+    }
+    if msgs.len() > 40 {
+        msgs.truncate(40);
+    }
+    ctx.nontrivial();
+    ctx.shape("flight.decoder", msgs.len() as u64, wl.batches.len() as u64);
+    // an invalid variant of the message sequence (tape-chosen), decoded under the same schedules
+    let mut variants: Vec<(&'static str, Vec<FlightData>)> = vec![("valid", msgs.clone())];
+    if !msgs.is_empty() {
+        let mut v = msgs.clone();
+        let kind = ctx.draw(5, "fd.invalid");
+        match kind {
+            0 => {
+                // the schema message twice in a row
+                v.insert(1.min(v.len()), msgs[0].clone());
+            }
+            1 => {
+                // the schema message again after a tape-chosen message
+                let at = 1 + ctx.below(v.len(), "fd.dup_at");
+                v.insert(at.min(v.len()), msgs[0].clone());
+            }
+            2 => {
+                v.remove(0);
+            }
+            3 => {
+                let at = ctx.below(v.len(), "fd.trunc_at");
+                let n = v[at].data_body.len();
+                v[at].data_body = v[at].data_body.slice(0..n / 2);
+            }
+            _ => {
+                let at = ctx.below(v.len(), "fd.drop_at");
+                v.remove(at);
+            }
+        }
+        variants.push(("invalid", v));
+    }
+    for (input, v) in &variants {
+        let n = v.len() as u32;
+        // a damaged message sequence that makes the decoder panic with every message ready is C08's matter
+        let rf = match catch_unwind(AssertUnwindSafe(|| flight_decode(ctx, v, 0))) {
+            Ok(r) => r?,
+            Err(_) => {
+                ctx.count("invalid_input_panicked(C08)", 1);
+                continue;
+            }
+        };
+        ctx.count("executions", 1);
+        if rf.hang || rf.invalid.is_some() {
+            ctx.count("skipped", 1);
+            ctx.count("skipped.reference_unusable", 1);
+            continue;
+        }
+        if rf.err.is_some() {
+            ctx.probe("reference_is_error");
+        }
+        ctx.ev(input, n as u64, rf.rows.len() as u64);
+        // every Pending / Ready pattern for short sequences, a stride of them otherwise
+        let bits = (n + 1).min(63);
+        let total: u64 = 1u64 << bits.min(12);
+        let label: &str = if *input == "valid" { "fp" } else { "ifp" };
+        for j in ctx.sweep(label, total as usize) {
+            ctx.set_at(label, j as u64);
+            let pattern = if bits <= 12 { j as u64 } else { simcore::splitmix64(j as u64 ^ 0x5151) & ((1u64 << bits) - 1) };
+            let got = flight_decode(ctx, v, pattern)?;
+            ctx.count("executions", 1);
+            ctx.count("fault.pending_pattern", 1);
+            let key = format!("flight.decoder/pattern.{input}");
+            if got.hang {
+                bail_v!(ctx, "hang", &key, "decoder did not finish under Pending pattern {pattern:#b}");
+            }
+            if let Some(e) = &got.invalid {
+                bail_v!(ctx, "invalid_array", &key, "decoder emitted an invalid batch under pattern {pattern:#b}: {e}");
+            }
+            if rf.err.is_some() != got.err.is_some() {
+                bail_v!(ctx, "outcome_depends_on_chunking", &key, "all messages ready: {:?} ({} rows); Pending pattern {pattern:#b} over {n} messages: {:?} ({} rows)", rf.err, rf.rows.len(), got.err, got.rows.len());
+            }
+            if rf.err.is_none() && (got.rows != rf.rows || got.schema_sig != rf.schema_sig) {
+                bail_v!(ctx, "rows_depend_on_chunking", &key, "Pending pattern {pattern:#b}: {} rows / schema {:?} vs {} rows / {:?} with all messages ready", got.rows.len(), got.schema_sig, rf.rows.len(), rf.schema_sig);
+            }
+            if rf.err.is_some() {
+                let (a, b) = if got.rows.len() <= rf.rows.len() { (&got.rows, &rf.rows) } else { (&rf.rows, &got.rows) };
+                if a[..] != b[..a.len()] {
+                    bail_v!(ctx, "rows_depend_on_chunking", &key, "both schedules fail, but the rows emitted before the error disagree (pattern {pattern:#b})");
+                }
+            }
+        }
+        ctx.clear_at(label);
+    }
+    Ok(())
+}
+
 fn main() {
     simcore::main_with(
         "C14",
@@ -449,6 +833,8 @@ fn main() {
             Scenario { name: "csv", runs_quick: 400, runs_thorough: 10000, f: csv },
             Scenario { name: "json", runs_quick: 400, runs_thorough: 10000, f: json },
             Scenario { name: "ipc_stream", runs_quick: 300, runs_thorough: 8000, f: ipc_stream },
+            Scenario { name: "pq_meta", runs_quick: 300, runs_thorough: 8000, f: pq_meta },
+            Scenario { name: "flight_decoder", runs_quick: 600, runs_thorough: 20000, f: flight_decoder },
         ],
     );
 }
